@@ -83,6 +83,7 @@ func main() {
 	prop := flag.String("prop", "all", "property id (or all)")
 	slow := flag.Int("slow", 0, "print the N slowest obligations")
 	only := flag.String("func", "", "verify only functions whose display name contains this string")
+	onlyFiles := flag.String("files", "", "verify only functions declared in these source files (comma-separated path suffixes); modular verification makes this complete for a change confined to those files")
 	tier := flag.String("tier", "quick", "quick|thorough")
 	evidence := flag.String("evidence", "", "evidence file to write")
 	replayDir := flag.String("replays", "/verif/replays", "directory for replay files")
@@ -148,7 +149,25 @@ func main() {
 	var all []*Obligation
 	var batches []*Obligation
 	nfun := 0
+	inFiles := func(fc *FuncContract) bool {
+		if *onlyFiles == "" {
+			return true
+		}
+		if fc.Decl == nil || fc.Pkg == nil {
+			return false
+		}
+		fn := fc.Pkg.Fset.Position(fc.Decl.Pos()).Filename
+		for _, suf := range strings.Split(*onlyFiles, ",") {
+			if suf != "" && strings.HasSuffix(fn, suf) {
+				return true
+			}
+		}
+		return false
+	}
 	for _, fc := range prog.Order {
+		if !inFiles(fc) {
+			continue
+		}
 		// function literals with their own contract (also inside assumed functions)
 		for _, ord := range sortedKeys(fc.Lits) {
 			lc := fc.Lits[ord]
